@@ -62,6 +62,7 @@ let runners : (string * (z list -> z list)) list = [
   "guards", run_guards;
   "pipebuf", run_pipebuf;
   "qidx", run_qidx;
+  "bq", run_bq;
   "suspend", run_suspend;
   "once", run_once;
 ]
